@@ -255,6 +255,7 @@ impl SeqScenario for C04 {
         let site = cfg.site();
         let alpha = self.alphabet();
         let mut w = World::new(0, 10, Mode::Script, 1);
+        w.inner.lock().unwrap().latency_inside_call = self.cfg.latency_inside_call;
         let (mut cb, _tl) = build(cfg, w.inner.clone(), w.origin);
         let mut clone = cb.clone_box();
         let mut cands: Vec<Model> = self.interps().into_iter().map(Model::new).collect();
@@ -493,6 +494,9 @@ pub fn grid(thorough: bool) -> Vec<CbCfg> {
                                     // every third configuration starts from the fast_fail()
                                     // preset and overrides every setting afterwards
                                     preset_start: v.len() % 3 == 2,
+                                    // every second configuration with slow-call detection: the
+                                    // inner service is slow inside call(), not inside its future
+                                    latency_inside_call: slow_ms.is_some() && v.len() % 2 == 0,
                                 });
                             }
                         }
@@ -521,6 +525,7 @@ pub fn grid(thorough: bool) -> Vec<CbCfg> {
                 fallback_gated: false,
                 classifier_first: false,
                 preset_start: false,
+                latency_inside_call: false,
             });
         }
     }
@@ -543,6 +548,7 @@ pub fn grid(thorough: bool) -> Vec<CbCfg> {
             fallback_gated: false,
             classifier_first: false,
             preset_start: false,
+            latency_inside_call: false,
         });
     }
     v
